@@ -223,17 +223,6 @@ Proof.
   destruct (lookup d name) as [[v|z|[|]]|]; try discriminate; rewrite <- ?app_assoc; reflexivity.
 Qed.
 
-(* a string value: the line "#define NAME value" is stripped and then SCANNED AGAIN *)
-Theorem mesondefine_string_as_is d (lead mid name trail v : str) :
-  blank lead = true -> blank mid = true -> mid <> [] -> token name = true -> blank trail = true ->
-  lookup d name = Some (VStr v) ->
-  do_define_meson d (define_line lead mid name trail)
-  = Ok (fst (subst_meson d (strip (s2l "#define " ++ name ++ [32] ++ v) ++ [10]))).
-Proof.
-  intros Hl Hm Hmn Hn Ht Hs. unfold do_define_meson, define_line.
-  rewrite (split_ws_two lead _ mid name trail Hl mesondefine_token Hm Hmn Hn Ht). rewrite Hs. reflexivity.
-Qed.
-
 Lemma lstrip_nonspace (c : char) (s : str) : is_space c = false -> lstrip (c :: s) = c :: s.
 Proof. intros H. cbn [lstrip]. rewrite H. reflexivity. Qed.
 Lemma strip_id (c z : char) (a : str) :
@@ -244,69 +233,143 @@ Proof.
   rewrite (lstrip_nonspace z _ Hz). change (z :: rev a ++ [c]) with ([z] ++ rev (c :: a)).
   rewrite rev_app_distr, rev_involutive. reflexivity.
 Qed.
+Lemma rstrip_space (x : str) (c : char) : is_space c = true -> rstrip (x ++ [c]) = rstrip x.
+Proof. intros H. unfold rstrip. rewrite rev_app_distr. cbn [rev app lstrip]. rewrite H. reflexivity. Qed.
 
-(* ... so the documented form "#define NAME value" is what comes out exactly when the value holds
-   nothing that the scanner reacts to (guard: no '@', no '\', no blank at its end) *)
-Theorem mesondefine_string_partial d (lead mid name trail v : str) (z : char) :
+Lemma rstrip_id (x : str) (z : char) : is_space z = false -> rstrip (x ++ [z]) = x ++ [z].
+Proof.
+  intros H. unfold rstrip. rewrite rev_app_distr. cbn [rev app]. rewrite lstrip_nonspace by exact H.
+  cbn [rev]. rewrite rev_involutive. reflexivity.
+Qed.
+Lemma strip_eq (c : char) (x : str) : is_space c = false -> strip (c :: x) = rstrip (c :: x).
+Proof. intros H. unfold strip. rewrite lstrip_nonspace by exact H. reflexivity. Qed.
+Lemma token_last (t : str) : token t = true -> exists a z, t = a ++ [z] /\ is_space z = false.
+Proof.
+  intros H. destruct (token_spec t H) as [Hne Hall].
+  destruct (exists_last Hne) as [a [z ->]]. exists a, z. split; [reflexivity|].
+  rewrite forallb_app in Hall. apply andb_true_iff in Hall. destruct Hall as [_ Hz]. cbn [forallb] in Hz.
+  rewrite andb_true_r in Hz. apply negb_true_iff in Hz. exact Hz.
+Qed.
+
+
+Lemma lstrip_app_nonspace (u w : str) (z : char) :
+  is_space z = false -> lstrip (u ++ z :: w) = lstrip u ++ z :: w.
+Proof.
+  intros Hz. induction u as [|c u IH]; cbn [app lstrip].
+  - rewrite Hz. reflexivity.
+  - destruct (is_space c); [exact IH|reflexivity].
+Qed.
+(* trailing blanks are removed only behind the last non-blank character *)
+Lemma rstrip_app_keep (x y : str) (z : char) :
+  is_space z = false -> rstrip ((x ++ [z]) ++ y) = (x ++ [z]) ++ rstrip y.
+Proof.
+  intros Hz. unfold rstrip. rewrite !rev_app_distr. cbn [rev app].
+  rewrite (lstrip_app_nonspace (rev y) (rev x) z Hz). rewrite rev_app_distr. cbn [rev].
+  rewrite rev_involutive. reflexivity.
+Qed.
+
+(* a string value (as patched: no second scan): "#define NAME value", for EVERY value - '@', '\'
+   and placeholder-looking text included - only the blanks at the end of the value are dropped *)
+Theorem mesondefine_string d (lead mid name trail v : str) :
   blank lead = true -> blank mid = true -> mid <> [] -> token name = true -> blank trail = true ->
-  lookup d name = Some (VStr (v ++ [z])) ->
-  forallb plain_char (name ++ v ++ [z]) = true -> is_space z = false ->
+  lookup d name = Some (VStr v) ->
+  do_define_meson d (define_line lead mid name trail)
+  = Ok (s2l "#define " ++ name ++ rstrip (32 :: v) ++ [10]).
+Proof.
+  intros Hl Hm Hmn Hn Ht Hs. unfold do_define_meson, define_line.
+  rewrite (split_ws_two lead _ mid name trail Hl mesondefine_token Hm Hmn Hn Ht). rewrite Hs.
+  destruct (token_last name Hn) as [a [z [-> Hz]]]. unfold NL. f_equal.
+  change (s2l "#define ") with (35 :: s2l "define "). cbn [app].
+  rewrite strip_eq by reflexivity.
+  repl (35 :: s2l "define " ++ (a ++ [z]) ++ 32 :: v) (((35 :: s2l "define " ++ a) ++ [z]) ++ 32 :: v)
+    ltac:(cbn [app]; rewrite <- !app_assoc; reflexivity).
+  rwn (rstrip_app_keep (35 :: s2l "define " ++ a) (32 :: v) z Hz).
+  cbn [app]. rewrite <- !app_assoc. reflexivity.
+Qed.
+
+(* ... in particular the documented form when the value does not end in a blank *)
+Theorem mesondefine_string_verbatim d (lead mid name trail v : str) (z : char) :
+  blank lead = true -> blank mid = true -> mid <> [] -> token name = true -> blank trail = true ->
+  lookup d name = Some (VStr (v ++ [z])) -> is_space z = false ->
   do_define_meson d (define_line lead mid name trail) = Ok (define_text d name ++ [10]).
 Proof.
-  intros Hl Hm Hmn Hn Ht Hs Hp Hz.
-  rewrite (mesondefine_string_as_is d lead mid name trail _ Hl Hm Hmn Hn Ht Hs).
+  intros Hl Hm Hmn Hn Ht Hs Hz.
+  rewrite (mesondefine_string d lead mid name trail _ Hl Hm Hmn Hn Ht Hs).
   unfold define_text. rewrite Hs.
-  replace (s2l "#define " ++ name ++ [32] ++ v ++ [z]) with ((35 :: (s2l "define " ++ name ++ [32] ++ v)) ++ [z])
-    by (cbn [s2l app]; rewrite <- !app_assoc; reflexivity).
-  rewrite (strip_id 35 z _ eq_refl Hz).
-  rewrite meson_identity_plain; [reflexivity|].
-  rewrite !forallb_app in Hp. apply andb_true_iff in Hp. destruct Hp as [Hp1 Hp2]. apply andb_true_iff in Hp2. destruct Hp2 as [Hp2 Hp3].
-  cbn [forallb] in Hp3. rewrite andb_true_r in Hp3.
-  rewrite !forallb_app. cbn [forallb]. rewrite !forallb_app. unfold str, char in *. rewrite Hp1, Hp2, Hp3. reflexivity.
+  repl (32 :: v ++ [z]) ((32 :: v) ++ [z]) ltac:(reflexivity).
+  rwn (rstrip_id (32 :: v) z Hz). f_equal. rewrite <- !app_assoc. reflexivity.
+Qed.
+Example mesondefine_placeholder_value_verbatim :
+  do_define_meson [(s2l "X", (VStr (s2l "q@X@\@X\@"), []))] (s2l "  #mesondefine X  ")
+  = Ok (s2l "#define X q@X@\@X\@" ++ [10]).
+Proof. vm_compute. reflexivity. Qed.
+
+(* ------------------------------------------------------------------ the line terminator *)
+Lemma forallb_rev {A} (p : A -> bool) (l : list A) : forallb p (rev l) = forallb p l.
+Proof.
+  induction l as [|x l IH]; [reflexivity|]. cbn [rev forallb]. rewrite forallb_app, IH. cbn [forallb].
+  rewrite andb_true_r, andb_comm. reflexivity.
+Qed.
+Lemma span_stop' (p : char -> bool) (v : str) (c : char) (rest : str) :
+  forallb p v = true -> p c = false -> span p (v ++ c :: rest) = (v, c :: rest).
+Proof.
+  induction v as [|x v IH]; intros Hv Hc; cbn [app span].
+  - rewrite Hc. reflexivity.
+  - cbn [forallb] in Hv. apply andb_true_iff in Hv. destruct Hv as [Hx Hv]. rewrite Hx, (IH Hv Hc). reflexivity.
+Qed.
+Lemma line_eol_app (x eol : str) (z : char) :
+  is_crlf z = false -> forallb is_crlf eol = true -> line_eol ((x ++ [z]) ++ eol) = eol.
+Proof.
+  intros Hz He. unfold line_eol. rewrite !rev_app_distr. cbn [rev app].
+  rewrite span_stop'; [cbn [fst]; apply rev_involutive|rewrite forallb_rev; exact He|exact Hz].
+Qed.
+Lemma line_eol_none (x : str) (z : char) : is_crlf z = false -> line_eol (x ++ [z]) = [].
+Proof. intros Hz. rewrite <- (app_nil_r (x ++ [z])). apply line_eol_app; [exact Hz|reflexivity]. Qed.
+
+Lemma set_eol_spec (x eol out : str) (z : char) :
+  is_crlf z = false -> forallb is_crlf eol = true ->
+  set_eol ((x ++ [z]) ++ eol) (out ++ [10]) = out ++ (match eol with [] => [10] | _ => eol end).
+Proof.
+  intros Hz He. unfold set_eol. rewrite (line_eol_app x eol z Hz He).
+  destruct eol; [reflexivity|]. rewrite removelast_last. reflexivity.
 Qed.
 
-(* REFUTED at full strength: a value that itself contains a placeholder is expanded a second time *)
-Theorem mesondefine_string_refuted :
-  exists d name v, lookup d name = Some (VStr v) /\
-    do_define_meson d (define_line [] [32] name [10]) <> Ok (define_text d name ++ [10]).
+Lemma crlf_is_space (c : char) : is_crlf c = true -> is_space c = true.
 Proof.
-  exists [(s2l "X", (VStr (s2l "q@X@"), []))], (s2l "X"), (s2l "q@X@").
-  split; [reflexivity|]. vm_compute. discriminate.
-Qed.
-Example mesondefine_string_guard_satisfiable :
-  forallb plain_char (s2l "NAME" ++ s2l """a value" ++ [34]) = true /\ is_space 34 = false.
-Proof. split; reflexivity. Qed.
-
-(* REFUTED: the line's own terminator is not copied - a CRLF define line ends in LF *)
-Theorem define_line_eol_refuted :
-  exists d line out, do_define_meson d (line ++ [13; 10]) = Ok out /\ suffixb [13; 10] out = false.
-Proof.
-  exists [(s2l "B", (VInt 1, []))], (s2l "#mesondefine B"), (s2l "#define B 1" ++ [10]).
-  split; vm_compute; reflexivity.
+  unfold is_crlf. intros H. apply orb_true_iff in H. destruct H as [H|H]; apply N.eqb_eq in H; subst; reflexivity.
 Qed.
 
 (* ------------------------------------------------------------------ whole files *)
-Inductive mline := MOrd (l : list seg) | MDef (lead mid name trail : str).
+(* a #mesondefine line: indentation, the token, blanks, the name, blanks (no CR / LF), and the
+   line's own terminator eol (LF, CRLF, CR or nothing) *)
+Inductive mline := MOrd (l : list seg) | MDef (lead mid name trail eol : str).
 Definition mline_text (ml : mline) : str :=
-  match ml with MOrd l => render_all l | MDef lead mid name trail => define_line lead mid name trail end.
+  match ml with
+  | MOrd l => render_all l
+  | MDef lead mid name trail eol => define_line lead mid name trail ++ eol
+  end.
 Definition mline_wf (ml : mline) : bool :=
   match ml with
   | MOrd l => wf_segs l && ordinary_meson (render_all l)
-  | MDef lead mid name trail => blank lead && blank mid && nonempty mid && token name && blank trail
+  | MDef lead mid name trail eol =>
+      blank lead && blank mid && nonempty mid && token name && blank trail &&
+      forallb (fun c => negb (is_crlf c)) trail && forallb is_crlf eol
+  end.
+(* the replacement text of the define (without terminator) *)
+Definition define_out (d : conf) (name : str) : str :=
+  match lookup d name with
+  | Some (VStr v) => s2l "#define " ++ name ++ rstrip (32 :: v)
+  | _ => define_text d name
   end.
 Definition mline_out (d : conf) (ml : mline) : str :=
   match ml with
   | MOrd l => expand_all d l
-  | MDef _ _ name _ =>
-      match lookup d name with
-      | Some (VStr v) => fst (subst_meson d (strip (s2l "#define " ++ name ++ [32] ++ v) ++ [10]))
-      | _ => define_text d name ++ [10]
-      end
+  | MDef _ _ name _ eol => define_out d name ++ (match eol with [] => [10] | _ => eol end)
   end.
 Definition mline_missing (d : conf) (ml : mline) : list str :=
-  match ml with MOrd l => missing d l | MDef _ _ _ _ => [] end.
+  match ml with MOrd l => missing d l | MDef _ _ _ _ _ => [] end.
 Definition mline_quiet (d : conf) (ml : mline) : bool :=
-  match ml with MOrd l => is_nil (missing d l) | MDef _ _ _ _ => false end.
+  match ml with MOrd l => is_nil (missing d l) | MDef _ _ _ _ _ => false end.
 
 Lemma lstrip_blank_app (b s : str) : blank b = true -> lstrip (b ++ s) = lstrip s.
 Proof.
@@ -324,17 +387,44 @@ Proof.
   apply prefixb_app.
 Qed.
 
-Lemma mdef_out d (lead mid name trail : str) :
-  mline_wf (MDef lead mid name trail) = true ->
-  do_define_meson d (define_line lead mid name trail) = Ok (mline_out d (MDef lead mid name trail)).
+Lemma define_line_app (lead mid name trail eol : str) :
+  define_line lead mid name trail ++ eol = define_line lead mid name (trail ++ eol).
+Proof. unfold define_line. rewrite <- !app_assoc. reflexivity. Qed.
+
+Lemma blank_app (a b : str) : blank (a ++ b) = blank a && blank b.
+Proof. apply forallb_app. Qed.
+Lemma crlf_blank (e : str) : forallb is_crlf e = true -> blank e = true.
 Proof.
-  cbn [mline_wf]. intros H. repeat (apply andb_true_iff in H; destruct H as [H ?]).
-  assert (Hmn : mid <> []) by (destruct mid; [discriminate|discriminate]).
-  cbn [mline_out]. destruct (lookup d name) as [[v|z|b]|] eqn:E.
-  - apply mesondefine_string_as_is; assumption.
+  induction e as [|c e IH]; [reflexivity|]. cbn [forallb blank]. intros H. apply andb_true_iff in H. destruct H as [Hc He].
+  rewrite (crlf_is_space c Hc). exact (IH He).
+Qed.
+
+Lemma mdef_do_define d (lead mid name trail : str) :
+  blank lead = true -> blank mid = true -> mid <> [] -> token name = true -> blank trail = true ->
+  do_define_meson d (define_line lead mid name trail) = Ok (define_out d name ++ [10]).
+Proof.
+  intros Hl Hm Hmn Hn Ht. unfold define_out. destruct (lookup d name) as [[v|z|b]|] eqn:E.
+  - rewrite (mesondefine_string d lead mid name trail v Hl Hm Hmn Hn Ht E). rewrite <- !app_assoc. reflexivity.
   - apply mesondefine_forms; try assumption. unfold is_str_value. rewrite E. reflexivity.
   - apply mesondefine_forms; try assumption. unfold is_str_value. rewrite E. reflexivity.
   - apply mesondefine_forms; try assumption. unfold is_str_value. rewrite E. reflexivity.
+Qed.
+
+(* the part of a define line in front of its terminator ends in a character that is not CR / LF *)
+Lemma define_line_last (lead mid name trail : str) :
+  token name = true -> forallb (fun c => negb (is_crlf c)) trail = true ->
+  exists x z, define_line lead mid name trail = x ++ [z] /\ is_crlf z = false.
+Proof.
+  intros Hn Ht. destruct (token_last name Hn) as [a [zn [-> Hzn]]].
+  destruct trail as [|c t].
+  - exists (lead ++ s2l "#mesondefine" ++ mid ++ a), zn. split.
+    + unfold define_line. rewrite app_nil_r. rewrite <- !app_assoc. reflexivity.
+    + destruct (is_crlf zn) eqn:E; [|reflexivity]. rewrite (crlf_is_space zn E) in Hzn. discriminate.
+  - destruct (@exists_last _ (c :: t) ltac:(discriminate)) as [t' [z Ez]]. rewrite Ez in *.
+    exists (lead ++ s2l "#mesondefine" ++ mid ++ (a ++ [zn]) ++ t'), z. split.
+    + unfold define_line. rewrite <- !app_assoc. reflexivity.
+    + rewrite forallb_app in Ht. apply andb_true_iff in Ht. destruct Ht as [_ Hz]. cbn [forallb] in Hz.
+      rewrite andb_true_r in Hz. apply negb_true_iff in Hz. exact Hz.
 Qed.
 
 Lemma conf_meson_loop_file d : forall (mls : list mline) acc miss useless,
@@ -347,7 +437,7 @@ Proof.
   induction mls as [|ml rest IH]; intros acc miss useless H.
   - cbn. rewrite !app_nil_r, andb_true_r. reflexivity.
   - cbn [forallb] in H. apply andb_true_iff in H. destruct H as [Hm Hr].
-    cbn [map conf_meson_loop]. destruct ml as [l|lead mid name trail].
+    cbn [map conf_meson_loop]. destruct ml as [l|lead mid name trail eol].
     + cbn [mline_wf] in Hm. apply andb_true_iff in Hm. destruct Hm as [Hw Ho].
       unfold ordinary_meson in Ho. apply andb_true_iff in Ho. destruct Ho as [H1 H2].
       apply negb_true_iff in H1. apply negb_true_iff in H2.
@@ -355,16 +445,29 @@ Proof.
       rewrite (IH _ _ _ Hr). cbn [map concat forallb mline_out mline_missing mline_quiet rev].
       rewrite <- !app_assoc. cbn [app]. f_equal. f_equal.
       destruct (missing d l); cbn [is_nil andb]; [reflexivity|]. rewrite andb_false_r. reflexivity.
-    + cbn [mline_text]. assert (Hl : blank lead = true).
-      { cbn [mline_wf] in Hm. repeat (apply andb_true_iff in Hm; destruct Hm as [Hm ?]). exact Hm. }
-      rewrite (define_line_detected lead mid name trail Hl). rewrite (mdef_out d _ _ _ _ Hm).
-      rewrite (IH _ _ _ Hr). cbn [map concat forallb mline_missing mline_quiet rev andb].
+    + cbn [mline_wf] in Hm.
+      apply andb_true_iff in Hm. destruct Hm as [Hm Heol].
+      apply andb_true_iff in Hm. destruct Hm as [Hm Hnocr].
+      apply andb_true_iff in Hm. destruct Hm as [Hm Htr].
+      apply andb_true_iff in Hm. destruct Hm as [Hm Hname].
+      apply andb_true_iff in Hm. destruct Hm as [Hm Hmne].
+      apply andb_true_iff in Hm. destruct Hm as [Hl Hmid].
+      assert (Hmn : mid <> []) by (destruct mid; [discriminate|discriminate]).
+      cbn [mline_text]. rewrite define_line_app.
+      assert (Hte : blank (trail ++ eol) = true) by (rewrite blank_app, Htr, (crlf_blank eol Heol); reflexivity).
+      rewrite (define_line_detected lead mid name (trail ++ eol) Hl).
+      rewrite (mdef_do_define d lead mid name (trail ++ eol) Hl Hmid Hmn Hname Hte).
+      rewrite <- define_line_app.
+      destruct (define_line_last lead mid name trail Hname Hnocr) as [x [z [Ex Hz]]]. rewrite Ex.
+      rewrite (set_eol_spec x eol (define_out d name) z Hz Heol).
+      rewrite (IH _ _ _ Hr). cbn [map concat forallb mline_out mline_missing mline_quiet rev andb].
       rewrite <- !app_assoc. cbn [app]. rewrite andb_false_r. reflexivity.
 Qed.
 
 (* THE file theorem of the meson format: a template whose lines are well-formed segment lists
-   (terminators included, as Lit) and #mesondefine lines in any spacing comes out as the
-   expansions and the define forms, in order; the undefined names are those of the ordinary lines *)
+   (terminators included, as Lit) and #mesondefine lines in any spacing and with any terminator
+   comes out as the expansions and the define forms, in order, EVERY line keeping its own
+   terminator (a define line without one gets LF); the undefined names are those of the ordinary lines *)
 Theorem conf_meson_file d (mls : list mline) :
   forallb mline_wf mls = true ->
   do_conf_str_meson d (map mline_text mls)
@@ -378,32 +481,35 @@ Definition ordinary_cmake (line : str) : bool :=
 
 Lemma conf_cmake_loop_segments at_only d : forall (ls : list (list cseg)) acc miss useless,
   forallb (wf_csegs at_only) ls = true ->
+  forallb (forallb (cseg_ok d)) ls = true ->
   forallb ordinary_cmake (map crender_all ls) = true ->
   conf_cmake_loop at_only d (map crender_all ls) acc miss useless
   = Ok (mk_out (rev acc ++ map (cexpand_all d) ls)
                (miss ++ concat (map (cmissing d) ls))
                (useless && forallb (fun l => is_nil (cmissing d l)) ls)).
 Proof.
-  induction ls as [|l rest IH]; intros acc miss useless Hw Ho.
+  induction ls as [|l rest IH]; intros acc miss useless Hw Hk Ho.
   - cbn. rewrite !app_nil_r, andb_true_r. reflexivity.
   - cbn [forallb map] in *. apply andb_true_iff in Hw. destruct Hw as [Hw Hwr].
+    apply andb_true_iff in Hk. destruct Hk as [Hk Hkr].
     apply andb_true_iff in Ho. destruct Ho as [Ho Hor].
     unfold ordinary_cmake in Ho. apply andb_true_iff in Ho. destruct Ho as [H1 H2].
     apply negb_true_iff in H1. apply negb_true_iff in H2.
-    cbn [conf_cmake_loop]. rewrite H1, H2. rewrite (cmake_segments at_only d l Hw).
-    rewrite (IH _ _ _ Hwr Hor). cbn [concat rev]. rewrite <- !app_assoc. cbn [app]. f_equal. f_equal.
+    cbn [conf_cmake_loop]. rewrite H1, H2. rewrite (cmake_segments at_only d l Hw Hk).
+    rewrite (IH _ _ _ Hwr Hkr Hor). cbn [concat rev]. rewrite <- !app_assoc. cbn [app]. f_equal. f_equal.
     destruct (cmissing d l); cbn [is_nil andb]; [reflexivity|]. rewrite andb_false_r. reflexivity.
 Qed.
 
 (* a cmake-format template of ordinary lines given as well-formed segment lists *)
 Theorem conf_cmake_segments at_only d (ls : list (list cseg)) :
   forallb (wf_csegs at_only) ls = true ->
+  forallb (forallb (cseg_ok d)) ls = true ->
   forallb ordinary_cmake (map crender_all ls) = true ->
   do_conf_str_cmake at_only d (map crender_all ls)
   = Ok (mk_out (map (cexpand_all d) ls) (concat (map (cmissing d) ls))
                (is_nil d && forallb (fun l => is_nil (cmissing d l)) ls)).
 Proof.
-  intros Hw Ho. unfold do_conf_str_cmake. rewrite (conf_cmake_loop_segments at_only d ls [] [] _ Hw Ho). reflexivity.
+  intros Hw Hk Ho. unfold do_conf_str_cmake. rewrite (conf_cmake_loop_segments at_only d ls [] [] _ Hw Hk Ho). reflexivity.
 Qed.
 
 (* ------------------------------------------------------------------ totality *)
@@ -470,24 +576,6 @@ Lemma cm_arr (lead gap kw mid name trail : str) :
 Proof.
   intros Hl Hg Hk Hm Hmn Hn Ht. unfold cmdefine_line. rewrite (lstrip_blank_app lead _ Hl).
   rewrite lstrip_nonspace by reflexivity. cbn [tl]. apply split_ws_two; assumption.
-Qed.
-
-Lemma rstrip_space (x : str) (c : char) : is_space c = true -> rstrip (x ++ [c]) = rstrip x.
-Proof. intros H. unfold rstrip. rewrite rev_app_distr. cbn [rev app lstrip]. rewrite H. reflexivity. Qed.
-
-Lemma rstrip_id (x : str) (z : char) : is_space z = false -> rstrip (x ++ [z]) = x ++ [z].
-Proof.
-  intros H. unfold rstrip. rewrite rev_app_distr. cbn [rev app]. rewrite lstrip_nonspace by exact H.
-  cbn [rev]. rewrite rev_involutive. reflexivity.
-Qed.
-Lemma strip_eq (c : char) (x : str) : is_space c = false -> strip (c :: x) = rstrip (c :: x).
-Proof. intros H. unfold strip. rewrite lstrip_nonspace by exact H. reflexivity. Qed.
-Lemma token_last (t : str) : token t = true -> exists a z, t = a ++ [z] /\ is_space z = false.
-Proof.
-  intros H. destruct (token_spec t H) as [Hne Hall].
-  destruct (exists_last Hne) as [a [z ->]]. exists a, z. split; [reflexivity|].
-  rewrite forallb_app in Hall. apply andb_true_iff in Hall. destruct Hall as [_ Hz]. cbn [forallb] in Hz.
-  rewrite andb_true_r in Hz. apply negb_true_iff in Hz. exact Hz.
 Qed.
 
 Definition cm_inert (c : char) : bool := negb (c =? 64) && negb (c =? 36).
